@@ -21,10 +21,10 @@ def dump (st : St) : String :=
   let f := fun (g : String → Int) => ",".intercalate (users.map (fun u => s!"{u}={g u}"))
   let ra := st.ids.filter (fun id => (st.s.recA id).isSome)
   let rb := st.ids.filter (fun id => (st.s.recB id).isSome)
-  s!"A:{f st.s.srcA};B:{f st.s.dstB};gA={st.s.givenA};gB={st.s.givenB};recA={joinOr "," ra};recB={joinOr "," rb}"
+  s!"A:{f st.s.srcA};B:{f st.s.dstB};gA={st.s.givenA};gB={st.s.givenB};recA={joinOr "," ra};recB={joinOr "," rb};x=0"
 
 def step' (st : St) : List String → St × String
-  | ["reset", d] => (init (d = "d"), "ok")
+  | ["reset", d] => (init (d = "d" ∨ d = "g"), "ok")
   | ["fund", u, n] => match n.toInt? with
     | some n => ({ st with s := { st.s with srcA := upd st.s.srcA u (st.s.srcA u + n) }, funded := (u, n) :: st.funded }, "ok")
     | none => (st, "bad-op")
